@@ -52,6 +52,7 @@ func cmdUnit(args []string) {
 	keep := fs.Bool("keep", false, "keep SMT files")
 	verbose := fs.Bool("v", false, "verbose")
 	doReplay := fs.Bool("replay", false, "replay failing obligations on the real code")
+	tier := fs.String("tier", "quick", "quick|thorough")
 	fs.Parse(args)
 	t0 := time.Now()
 	e, err := Load([]string{*pkg}, "/verif/ghost", nil)
@@ -59,6 +60,7 @@ func cmdUnit(args []string) {
 		fmt.Println("LOAD ERROR:", err)
 		os.Exit(3)
 	}
+	e.Tier = *tier
 	fmt.Printf("loaded in %.1fs\n", time.Since(t0).Seconds())
 	want := map[string]bool{}
 	for _, f := range strings.Split(*fun, ",") {
